@@ -78,6 +78,9 @@ type Reader struct {
 
 	// scratch buffer for reading frame headers, reused across ReadFrame calls
 	frmHdr []byte
+
+	// checksum stored in the header of the last frame returned by ReadFrame
+	lastChksum1, lastChksum2 uint32
 }
 
 // NewReader returns a new instance of Reader.
@@ -98,6 +101,13 @@ func (r *Reader) Offset() int64 {
 		return 0
 	}
 	return WALHeaderSize + ((int64(r.frameN) - 1) * (WALFrameHeaderSize + int64(r.pageSize)))
+}
+
+// LastFrameChecksum returns the cumulative checksum stored in the header of the
+// last frame returned by ReadFrame. It is the value the checksum of the frame
+// that follows must continue from.
+func (r *Reader) LastFrameChecksum() (uint32, uint32) {
+	return r.lastChksum1, r.lastChksum2
 }
 
 // ReadHeader reads the WAL header into the reader. Returns io.EOF if WAL is invalid.
@@ -203,6 +213,8 @@ func (r *Reader) ReadFrame(data []byte) (pgno, commit uint32, err error) {
 		return 0, 0, ErrZeroPageNumber
 	}
 	commit = binary.BigEndian.Uint32(hdr[4:])
+	r.lastChksum1 = binary.BigEndian.Uint32(hdr[16:])
+	r.lastChksum2 = binary.BigEndian.Uint32(hdr[20:])
 
 	r.frameN++
 
